@@ -147,7 +147,7 @@ theorem walk_eq_aux (C : Consts) (hC : Tied C) (V : String → Bool) :
         cases hf : findSub a n.subs with
         | none => simp [locatedOf, hC.stUnknownSub]
         | some sub =>
-          cases hs : sub.isCollection <;> simp [locatedOf, Target.under, walk, hs]
+          cases hs : sub.isCollection <;> simp [locatedOf, Target.under, hs]
       · simp [walk, locateAt, locatedOf, hc, hva]
     | a :: s :: rest2, hlen, hv =>
       cases hc : n.isCollection
@@ -922,5 +922,215 @@ theorem serveHTTP_bare (C : Consts) (V : String → Bool) (h : Handler) (req : R
     (hp : h.pfx = "/") (hne : req.path ≠ []) (hns : req.path.all noSlash = true) :
     serveHTTP C V h ⟨"", String.ofList ('/' :: joinSlash req.path), req⟩ = serveSegs C V h req := by
   simp only [serveHTTP, hp, slash_toList, if_true, String.toList_ofList, stripPrefix, splitSlash_joinSlash _ hne hns]
+
+theorem registerAll_filters (s : Server) : ∀ regs, (registerAll s regs).filters = s.filters := by
+  intro regs
+  induction regs generalizing s with
+  | nil => rfl
+  | cons x rest ih => obtain ⟨segs, r⟩ := x; simp [registerAll, ih, register_filters]
+
+theorem registerAll_root (s s' : Server) (h : s.root = s'.root) : ∀ regs, (registerAll s regs).root = (registerAll s' regs).root := by
+  intro regs
+  induction regs generalizing s s' with
+  | nil => exact h
+  | cons x rest ih =>
+    obtain ⟨segs, r⟩ := x
+    simp only [registerAll]
+    apply ih
+    simp [Server.register, h]
+
+/-- a prefixed server and a plain one, given the same filters and registrations, differ in the
+stored prefix only -/
+theorem prefixed_handler (C : Consts) (p : String) (fs : List FilterKind) (regs : List (List Seg × Reg)) :
+    (registerAll (newPrefixedServer C p fs) regs).handler =
+      { (registerAll (newServer C fs) regs).handler with pfx := (newPrefixedServer C p fs).pfx } := by
+  have hr := registerAll_root (newPrefixedServer C p fs) (newServer C fs) rfl regs
+  simp only [Server.handler, Server.roots, registerAll_pfx, registerAll_filters, hr]
+  simp [newServer, newPrefixedServer]
+
+theorem normalise_slash : normalisePrefix "/" = "/" := by decide
+
+/-! ### ServeMux -/
+
+def MuxResult.outcome : MuxResult → Option Outcome
+  | .redirect => some ⟨301, [], []⟩
+  | .notFound => some ⟨404, [], []⟩
+  | .handled o => some o
+  | .unmodelled => none
+
+theorem any_name_eq (r : String) : ∀ (roots : List Node),
+    (roots.any fun n => [n.name] == [r]) = (findSub r roots).isSome
+  | [] => rfl
+  | n :: rest => by
+    simp only [List.any_cons, findSub, any_name_eq r rest]
+    by_cases h : (n.name == r) = true
+    · simp [h]
+    · have h' : (n.name == r) = false := by simpa using h
+      have : ([n.name] == [r]) = false := by simpa using h'
+      simp [h', this]
+
+theorem splitSlash_slash : (splitSlash ['/']).map String.ofList = ["", ""] := by decide
+
+/-- through a ServeMux, a request for a root resource itself (one path segment) is answered as by the
+bare handler — as long as `AddToMux` registers exact patterns, this is all that reaches the handler -/
+theorem mux_single (C : Consts) (V : String → Bool) (s : Server) (r : String) (req : Req)
+    (hp : s.pfx = "/") (ht : C.muxPatternTrailingSlash = false) (hpath : req.path = [r])
+    (hr : noSlash r = true) (hdot : r ≠ "." ∧ r ≠ "..") :
+    ((addToMux C s).serve C V ⟨"", String.ofList ('/' :: r.toList), req⟩).outcome =
+      some (serveSegs C V s.handler req) := by
+  have hsplit : (splitSlash r.toList).map String.ofList = [r] := by
+    have : r.toList.contains '/' = false := by simpa [noSlash] using hr
+    simp [splitSlash_noSlash _ this]
+  have hbare := serveHTTP_bare C V s.handler req (by simp [Server.handler, hp]) (by simp [hpath])
+    (by simp [hpath, hr])
+  have hjoin : joinSlash req.path = r.toList := by simp [hpath, joinSlash]
+  rw [hjoin] at hbare
+  have hd1 : (r == ".") = false := by simpa using hdot.1
+  have hd2 : (r == "..") = false := by simpa using hdot.2
+  simp only [Mux.serve, String.toList_ofList, stripPrefix, if_true, hsplit, List.any_cons, List.any_nil, hd1, hd2,
+    Bool.or_self, Bool.false_eq_true, if_false, List.dropLast_singleton, addToMux, hp, slash_toList,
+    splitSlash_slash, ht, List.any_map, Function.comp_def, Bool.false_and]
+  simp only [List.filter, bne_self_eq_false, List.nil_append, any_name_eq]
+  cases hf : findSub r s.roots with
+  | some n =>
+    have hnone : (s.roots.any fun _ => false) = false := by simp
+    simp only [Option.isSome_some, if_true, MuxResult.outcome, hbare, hnone, Bool.false_eq_true, if_false]
+  | none =>
+    have hnone : (s.roots.any fun _ => false) = false := by simp
+    simp only [Option.isSome_none, Bool.false_eq_true, if_false, MuxResult.outcome, hnone]
+    simp [serveSegs, routeX, hpath, handler_roots, hf, Consts.stRootNotFound]
+
+/-! ## the specification's decision, unfolded -/
+
+theorem decide_routed_iff (V : String → Bool) (roots : List Node) (req : Req) (f : Facts) :
+    Spec.decide V roots req = .routed f ↔ Routable V roots req f := by
+  unfold Spec.decide Routable
+  cases hl : locate roots req.path with
+  | none => simp
+  | some t =>
+    by_cases hk : t.keys.all V = true
+    · by_cases hq : (req.query.all fun kv => V kv.2) = true
+      · simp only [hk, hq, Bool.not_true, Bool.or_self, Bool.false_eq_true, if_false]
+        cases hm : methodOf t req with
+        | none =>
+          simp only []
+          constructor
+          · intro h; cases h
+          · rintro ⟨t', m, ht, _, _, hm', _⟩
+            cases ht; rw [hm] at hm'; cases hm'
+        | some m =>
+          cases ha : admitted t m req with
+          | none =>
+            simp only [ha]
+            constructor
+            · intro h; cases h
+            · rintro ⟨t', m', ht, _, _, hm', ha'⟩
+              cases ht; rw [hm] at hm'; cases hm'; rw [ha] at ha'; cases ha'
+          | some f' =>
+            simp only [ha]
+            constructor
+            · intro h
+              cases h
+              exact ⟨t, m, rfl, hk, trivial, hm, ha⟩
+            · rintro ⟨t', m', ht, _, _, hm', ha'⟩
+              cases ht; rw [hm] at hm'; cases hm'; rw [ha] at ha'; cases ha'; rfl
+      · have hq' : (req.query.all fun kv => V kv.2) = false := by simpa using hq
+        simp only [hk, hq', Bool.not_true, Bool.not_false, Bool.or_true, if_true]
+        constructor
+        · intro h; cases h
+        · rintro ⟨t', m, ht, _, hq'', _, _⟩
+          exact absurd hq'' (by simp)
+    · have hk' : t.keys.all V = false := by simpa using hk
+      simp only [hk', Bool.not_false, Bool.true_or, if_true]
+      constructor
+      · intro h; cases h
+      · rintro ⟨t', m, ht, hk'', _, _, _⟩
+        cases ht; exact absurd (hk''.symm.trans hk') (by decide)
+
+/-! ## statuses of the not-routed branches -/
+
+theorem resolveWith_reject (C : Consts) (hC : Tied C) (n : Node) (rp : List Seg) (ks : List String) (hasEntity : Bool)
+    (verb : Verb) (m0 : Method) (finder action : String) (ids : Bool) (st : Nat)
+    (hsimple : n.isCollection = false → hasEntity = false)
+    (h : (resolveWith C n rp ks hasEntity verb m0 finder action ids).decision C = .reject st) : st = 400 := by
+  have key : ∀ m, (lookupHandler C n rp ks hasEntity m finder action).decision C = .reject st → st = 400 := by
+    intro m hm
+    unfold lookupHandler at hm
+    split at hm
+    · split at hm
+      · simp at hm
+      · simp only [decision_errResp, Decision.reject.injEq] at hm; rw [← hm, hC.stNoFinder]
+    · split at hm
+      · split at hm
+        · simp at hm
+        · simp only [decision_errResp, Decision.reject.injEq] at hm; rw [← hm, hC.stNoAction]
+      · split at hm
+        · simp at hm
+        · simp only [decision_errResp, Decision.reject.injEq] at hm; rw [← hm, hC.stNoMethod]
+  have chk : ∀ m, (finish C n rp ks hasEntity finder action (checkEntity C m hasEntity)).decision C = .reject st → st = 400 := by
+    intro m hm
+    unfold checkEntity at hm
+    split at hm
+    · simp only [finish, decision_errResp, Decision.reject.injEq] at hm; rw [← hm, hC.stNoEntity]
+    · split at hm
+      · simp only [finish, decision_errResp, Decision.reject.injEq] at hm; rw [← hm, hC.stEntityForbidden]
+      · exact key m hm
+  unfold resolveWith at h
+  cases hc : n.isCollection
+  · have := hsimple hc
+    subst this
+    simp only [hc, Bool.false_eq_true, if_false, finish] at h
+    exact key _ h
+  · simp only [hc, if_true] at h
+    split at h
+    · split at h
+      · exact chk _ h
+      · simp only [finish, decision_errResp, Decision.reject.injEq] at h; rw [← h, hC.stPostNeedsHeader]
+    · exact chk _ h
+
+/-- outside findings F7 and F20: a refusal is a 404 exactly when the path names no registered
+resource, and a 400 otherwise -/
+theorem reject_status (C : Consts) (hC : Tied C) (V : String → Bool) (roots : List Node) (req : Req) (st : Nat)
+    (hqv : queryValid V req = true) (hkv : keysValid V req = true)
+    (h : route C V roots req = .reject st) :
+    st = if (locate roots req.path).isNone then 404 else 400 := by
+  cases hp : req.path with
+  | nil =>
+    simp [route, routeX, hp, Consts.stRootNotFound] at h
+    simp [locate, h]
+  | cons s rest =>
+    cases hf : findSub s roots with
+    | none =>
+      simp [route, routeX, hp, hf, Consts.stRootNotFound] at h
+      simp [locate, hf, h]
+    | some sub =>
+      have hvall : ∀ x ∈ rest, V x = true := by
+        intro x hx
+        exact List.all_eq_true.mp hkv x (by rw [hp]; exact List.mem_cons_of_mem _ hx)
+      have hw := walk_eq_aux C hC V rest.length rest (Nat.le_refl _) sub [] [] s hvall
+      cases hl : locateAt sub rest with
+      | none =>
+        simp only [hl, locatedOf] at hw
+        simp [route, routeX, hp, hf, hw] at h
+        simp [locate, hf, hl, h]
+      | some t =>
+        simp only [hl, locatedOf, List.nil_append] at hw
+        rw [route_eq_resolve C V roots req s rest sub hp hf _ _ _ _ hw] at h
+        have hqv' : (req.query.all fun kv => V kv.2) = true := hqv
+        simp only [resolve, hqv', Bool.not_true, Bool.false_eq_true, if_false] at h
+        have := resolveWith_reject C hC _ _ _ _ _ _ _ _ _ st (locateAt_simple_nokey sub rest t hl) h
+        simp [locate, hf, hl, this]
+
+/-! ## counting resource calls -/
+
+theorem count_inv_pre (l : List Nat) : (l.map Tag.pre).count Tag.inv = 0 := by
+  induction l with
+  | nil => rfl
+  | cons a rest ih => simp [ih]
+
+theorem count_inv_post (l : List Nat) : (l.map Tag.post).count Tag.inv = 0 := by
+  induction l with
+  | nil => rfl
+  | cons a rest ih => simp [ih]
 
 end Restli.Routing
